@@ -132,7 +132,7 @@ def checkWith {σ : Type} (sc : Driver.Script) (m0 : σ)
     let parsed : Option (Op × Obs) :=
       match g.toks with
       | ["new"] => (match g.outs with | [["new", st, p]] => p.toNat?.map fun p => (Op.new, Obs.st (parseState st) p) | _ => none)
-      | ["stale"] => (match g.outs with | [["stale", st, p]] => p.toNat?.map fun p => (Op.stale, Obs.st (parseState st) p) | _ => none)
+      | "stale" :: _ => (match g.outs with | [["stale", st, p]] => p.toNat?.map fun p => (Op.stale, Obs.st (parseState st) p) | _ => none)
       | "hs" :: rest => do
           let p ← parsePlan rest
           let o ← parseHsObs g.outs
